@@ -225,7 +225,11 @@ func fieldMethodCall(files []*file, recv, meth, newName string) {
 				}
 				if in, ok := s.X.(*ast.SelectorExpr); ok {
 					if _, ok := in.X.(*ast.Ident); ok {
-						f.replace(c, newName+"("+f.text(in.Pos(), in.End())+")")
+						if strings.HasPrefix(newName, "&") { // pass the field's address
+							f.replace(c, newName[1:]+"(&"+f.text(in.Pos(), in.End())+")")
+						} else {
+							f.replace(c, newName+"("+f.text(in.Pos(), in.End())+")")
+						}
 					}
 				}
 				return true
@@ -405,6 +409,156 @@ func genForkWrapper(files []*file) {
 // (the wrapper is appended as text and not part of the parsed AST, so every parsed call is redirected).
 func redirectIdentCallExcept(files []*file, name, newName string) { redirectIdentCall(files, name, newName) }
 
+// selectSeam hands the choice among the ready cases of a receive-only select to the simulator. In the named
+// functions every such select
+//
+//	select { case <-A: X; case v := <-B: Y }
+//
+// becomes
+//
+//	if VSelHook == nil { <the select as it is> } else {
+//		for { k := VSelHook(site, n); select { case <-vsimCh(k == 0, A): X; case v := <-vsimCh(k == 1, B): Y; default: continue }; break }
+//	}
+//
+// The hook parks the goroutine until the simulator names the case to be tried; a case that is not ready falls
+// to the default and the goroutine parks again. With no hook installed (world K) the original statement runs.
+// The rule runs as a second pass over the already rewritten files, so the copy carries the other seams.
+// Send cases are wrapped alike (vsimChS). Selects with a default or an unlabelled continue in a body, and selects
+// nested in a case of a rewritten one, are left alone.
+// terminates: the statement list ends in a return, or in a select all of whose cases do (and none breaks out)
+func terminates(body []ast.Stmt) bool {
+	if len(body) == 0 {
+		return false
+	}
+	switch st := body[len(body)-1].(type) {
+	case *ast.ReturnStmt:
+		return true
+	case *ast.SelectStmt:
+		for _, cl := range st.Body.List {
+			cc := cl.(*ast.CommClause)
+			if !terminates(cc.Body) {
+				return false
+			}
+			brk := false
+			for _, x := range cc.Body {
+				ast.Inspect(x, func(m ast.Node) bool {
+					switch b := m.(type) {
+					case *ast.ForStmt, *ast.RangeStmt, *ast.FuncLit, *ast.SwitchStmt, *ast.TypeSwitchStmt, *ast.SelectStmt:
+						return false
+					case *ast.BranchStmt:
+						if b.Tok == token.BREAK && b.Label == nil {
+							brk = true
+						}
+					}
+					return true
+				})
+			}
+			if brk {
+				return false
+			}
+		}
+		return true
+	}
+	return false
+}
+
+func selectSeam(files []*file, funcs map[string]bool) {
+	for _, f := range files {
+		for _, d := range f.ast.Decls {
+			fd, ok := d.(*ast.FuncDecl)
+			if !ok || fd.Body == nil || (funcs != nil && !funcs[fd.Name.Name]) {
+				continue
+			}
+			idx := 0
+			ast.Inspect(fd.Body, func(n ast.Node) bool {
+				sel, ok := n.(*ast.SelectStmt)
+				if !ok {
+					return true
+				}
+				idx++
+				type sub struct {
+					a, b int
+					t    string
+				}
+				var subs []sub
+				base := f.off(sel.Pos())
+				okAll, allReturn := true, true
+				ncase := 0
+				for _, cl := range sel.Body.List {
+					cc := cl.(*ast.CommClause)
+					var recv *ast.UnaryExpr
+					var send *ast.SendStmt
+					switch c := cc.Comm.(type) {
+					case *ast.ExprStmt:
+						recv, _ = c.X.(*ast.UnaryExpr)
+					case *ast.AssignStmt:
+						if len(c.Rhs) == 1 {
+							recv, _ = c.Rhs[0].(*ast.UnaryExpr)
+						}
+					case *ast.SendStmt:
+						send = c
+					}
+					if send != nil {
+						subs = append(subs, sub{f.off(send.Chan.Pos()) - base, f.off(send.Chan.End()) - base,
+							fmt.Sprintf("vsimChS(vselK%d == %d, %s)", idx, ncase, f.text(send.Chan.Pos(), send.Chan.End()))})
+						ncase++
+					} else if recv == nil || recv.Op != token.ARROW {
+						okAll = false // default clause
+						break
+					} else {
+						subs = append(subs, sub{f.off(recv.X.Pos()) - base, f.off(recv.X.End()) - base,
+							fmt.Sprintf("vsimCh(vselK%d == %d, %s)", idx, ncase, f.text(recv.X.Pos(), recv.X.End()))})
+						ncase++
+					}
+					if !terminates(cc.Body) {
+						allReturn = false
+					}
+					for _, st := range cc.Body {
+						ast.Inspect(st, func(m ast.Node) bool {
+							switch b := m.(type) {
+							case *ast.ForStmt, *ast.RangeStmt, *ast.FuncLit:
+								return false // a continue in there is not ours
+							case *ast.SelectStmt, *ast.SwitchStmt, *ast.TypeSwitchStmt:
+								_ = b
+							case *ast.BranchStmt:
+								if b.Label == nil && b.Tok == token.CONTINUE {
+									okAll = false
+								}
+								if b.Label == nil && b.Tok == token.BREAK {
+									allReturn = false
+								}
+							}
+							return true
+						})
+					}
+				}
+				if !okAll || ncase < 2 {
+					return true
+				}
+				orig := f.text(sel.Pos(), sel.End())
+				mod := orig
+				sort.Slice(subs, func(i, j int) bool { return subs[i].a > subs[j].a })
+				for _, e := range subs {
+					mod = mod[:e.a] + e.t + mod[e.b:]
+				}
+				// the default clause goes in front of the closing brace of the select
+				mod = mod[:len(mod)-1] + "default:\ncontinue\n}"
+				tail := "\nbreak"
+				if allReturn {
+					tail = "" // every case returns: the loop must stay a terminating statement
+				}
+				site := fd.Name.Name + "#" + fmt.Sprint(idx)
+				if r := recvType(fd); r != "" {
+					site = r + "." + site
+				}
+				text := "if VSelHook == nil {\n" + orig + "\n} else {\nfor {\nvselK" + fmt.Sprint(idx) + " := VSelHook(\"" + site + "\", " + fmt.Sprint(ncase) + ")\n" + mod + tail + "\n}\n}"
+				f.replace(sel, text)
+				return false
+			})
+		}
+	}
+}
+
 func main() {
 	if len(os.Args) < 2 {
 		fmt.Fprintln(os.Stderr, "usage: seamgen <scratch-repo-copy>")
@@ -426,6 +580,10 @@ func main() {
 	methodCallInRecv(ct, "containerServer", "Start", "vsimStart")
 	fieldMethodCall(ct, "container", "Kill", "vsimProcKill")
 	fieldMethodCall(ct, "container", "Wait", "vsimProcWait")
+	// the environment's mutex: a goroutine waiting for a sync.Mutex is not durably blocked for synctest, and with
+	// the select seam a caller can be parked (by the simulator) while it holds the lock
+	fieldMethodCall(ct, "container", "Lock", "&vsimMuLock")
+	fieldMethodCall(ct, "container", "Unlock", "&vsimMuUnlock")
 	prologue(ct, "containerServer", "serve", "\tvsimServeStart($R)")
 	prologue(ct, "socket", "SendMsg", "\tvsimNoteSend($R, $P0)")
 	prologue(ct, "socket", "RecvMsg", "\tdefer func() { vsimNoteRecv($R, $P0, $ERR) }()")
@@ -493,6 +651,16 @@ func main() {
 				fmt.Fprintln(os.Stderr, "seamgen:", err)
 				os.Exit(2)
 			}
+		}
+	}
+
+	// --- container, second pass (over the files as rewritten above): the simulator chooses among ready select cases
+	ct2 := load(filepath.Join(root, "container"))
+	selectSeam(ct2, nil)
+	for _, f := range ct2 {
+		if err := f.flush(); err != nil {
+			fmt.Fprintln(os.Stderr, "seamgen:", err)
+			os.Exit(2)
 		}
 	}
 }
